@@ -4,7 +4,7 @@ import os
 
 from .. import impl
 from ..diff import compile_cached
-from ..refprolog import Ref, canon, unify_nsto
+from ..refprolog import Ref, canon, unify_nsto, Budget
 from ..runner import Acc, watchdog, Hang
 from ..terms import A, C, F, V, call, conj, TRUE, CUT, show_program, show_term
 
@@ -206,7 +206,7 @@ def show_table(tb, queries=QUERIES):
 
 def run_history(hist, texts):
     yp = impl.YP()
-    ref = Ref()
+    ref = Ref(200000, 120)
     trace = []
     states = []
     steps = 0
@@ -259,6 +259,8 @@ def run_history(hist, texts):
                         if got == 'exhausted' or exp == 'exhausted':
                             if got == exp:
                                 slot = None
+            except Budget:
+                return ('unspecified', 'reference budget')
             except Hang as e:
                 return ('violation', 'hang', label + str(e))
             except Exception as e:  # noqa: BLE001
@@ -277,7 +279,11 @@ def run_history(hist, texts):
         except Exception as e:  # noqa: BLE001
             return ('violation', '%s:raises:%s' % (ev[0], impl.exc_sig(e)), label + 'event %d raised %r' % (n + 1, e))
         steps += 1 + len(QUERIES)
-        mt = table_ref(ref, QUERIES)
+        try:
+            mt = table_ref(ref, QUERIES)
+        except Budget:
+            # the model did not finish within its own step budget: the history is not judged further
+            return ('unspecified', 'reference budget')
         if ev[0] == 'badload' and got != 'raised':
             # the property only speaks about loads that RAISE (they must leave the engine
             # unchanged); what a load that swallows the error of its script should leave behind
